@@ -1,5 +1,6 @@
 import M3d.Lemmas.RenderSampling
 import M3d.Lemmas.RenderAnalytic
+import M3d.Gen.ReflectAmount
 /-!
 # C19 — materials and lights sample what their densities say
 
@@ -44,6 +45,20 @@ theorem reflectAmount_range (ior : K) (h : 0 ≤ ior) (n s : V3 K) (hn : n.normS
   have hc1 := abs_dot_le_one hn hs
   refine ⟨rfl, ?_, schlick_le_one h hc0 hc1⟩
   exact le_trans (schlickR0_nonneg ior) (schlick_ge_r0 h hc1)
+
+set_option linter.unusedTactic false in
+set_option linter.unreachableTactic false in
+/-- **The current source text of `RefractMaterial.reflectAmount`** (translated from
+`/repo/render3d/material.go` by go/ast on every run, `M3d/Gen/ReflectAmount.lean`) **is Schlick's
+approximation** at the cosine `|normal·source|` — so `schlick_endpoints_monotone` is a statement
+about the function as it is written today. -/
+theorem reflectAmount_source_is_schlick (ior : K) (n s : V3 K) :
+    M3d.Gen.ReflectAmount.reflectAmount ior n s = schlick ior (absS (n.dot s)) ∧
+    M3d.Gen.ReflectAmount.reflectAmount ior n s = reflectAmount ior n s := by
+  have h : M3d.Gen.ReflectAmount.reflectAmount ior n s = schlick ior (absS (n.dot s)) := by
+    -- closes by unfolding when the source has the model's shape; `ring` absorbs algebraic rearrangements
+    simp only [M3d.Gen.ReflectAmount.reflectAmount, schlick, schlickR0, pow5_eq] <;> ring
+  exact ⟨h, h⟩
 
 /-- What was wrong before the repair (finding F12): the old expression `r0·(1−r0)·(1−cos)⁵`
 is `0` at normal incidence (not `R₀`) and never exceeds `1/4` (so never reaches total reflection). -/
